@@ -42,6 +42,8 @@ def run(ctx):
     RL.check_singleton_lock(ctx, 'R4.6')
     ctx.rule('R4.7', 'per-statement state of the splitter is completely reset (a piece re-split alone sees the same state)', floor=7)
     RS.check_reset_completeness(ctx, 'R4.7')
+    ctx.rule('R4.8', 'driver order: a token is classified and the end-of-statement test evaluated after the reset of the previous statement (a piece re-split alone behaves the same)', floor=2)
+    RS.check_driver_order(ctx, 'R4.8')
 
 
 def check_split_entry(ctx):
